@@ -26,7 +26,9 @@
        find the corresponding definition, and the second resolution must reproduce Used /
        Name2Category).  With a filter the statement is false:
        [C16_trim_not_idempotent_with_filter_refuted].
-     - (trim_resolves is now proved for every configuration: [C16_trim_resolves_all]; its
+     - (trim_resolves is now proved for every configuration: [C16_trim_resolves_all], and for
+       the output of C05's resolver without assuming its recorded resolution:
+       [C16_trim_resolves_of_resolved]; its
        hypotheses are all on the INPUT: resolvable, recorded resolution as C05's specification
        prescribes for types ([occ_good]) and base services, struct-like lists by kind.)
      - the method filter: both halves are proved ([..._only_matching_partial],
@@ -36,7 +38,7 @@
        correspondence check reports OutOfFuel as code 9 and has never seen it). *)
 From Coq Require Import List Bool Arith ZArith.
 From Verif Require Import Base.Bytes Idl.Ast Idl.AstUtil Idl.Trim Idl.TrimSpec Idl.TrimWitness Idl.TrimFacts.
-From Verif Require Idl.Resolve Idl.ResolveSpec Idl.ResolveInv Idl.ResolvableSpec Idl.ResolvableConst Idl.TrimResolves.
+From Verif Require Idl.Resolve Idl.ResolveSpec Idl.ResolveInv Idl.ResolvableSpec Idl.ResolvableConst Idl.TrimResolves Idl.TrimResolved.
 Import ListNotations.
 
 (* The closure computed for the correspondence oracles is exactly the inductive
@@ -354,6 +356,26 @@ Theorem C16_trim_resolves_all :
     Idl.ResolvableConst.resolvable q = true /\ exists r, Idl.Resolve.resolve_program q = Idl.Resolve.Ok r.
 Proof. exact Idl.TrimResolves.trim_resolves. Qed.
 Print Assumptions C16_trim_resolves_all.
+
+(* trim_resolves for the OUTPUT of the resolver: the hypotheses of C16_trim_resolves_all about
+   the recorded resolution (type occurrences, base-service References) are no longer assumed
+   but derived from C05 (resolved_occ, resolve_service_ref) and moved from the parsed program
+   p0 to its resolution r with C05's resolution_preserves_definitions.  Left: r is resolvable
+   and well formed (decidable, checked on every case), every file of r was resolved, the
+   parser's struct-like lists hold what their names say. *)
+Theorem C16_trim_resolves_of_resolved :
+  forall matches cp c p0 r q fin,
+    Idl.ResolveSpec.parsed_program p0 = true ->
+    Idl.Resolve.resolve_program p0 = Idl.Resolve.Ok r ->
+    (forall fn f', prog_file r fn = Some f' -> f_name2cat f' <> None) ->
+    Idl.ResolvableConst.resolvable r = true ->
+    wf r ->
+    (forall fn f k s, prog_file r fn = Some f -> In s (sl_list k f) -> sl_category s = k) ->
+    mark_ast matches cp c r (prog_size r) = Ok fin ->
+    reach cp c r false (prog_size r) fin (main_name r) [] = Ok q ->
+    Idl.ResolvableConst.resolvable q = true /\ exists r', Idl.Resolve.resolve_program q = Idl.Resolve.Ok r'.
+Proof. exact Idl.TrimResolved.trim_resolves_of_resolved. Qed.
+Print Assumptions C16_trim_resolves_of_resolved.
 
 (* the part of it that needs no hypothesis on the output: types *)
 Theorem C16_trimmed_types_resolve :
